@@ -250,9 +250,16 @@ func hygieneIssues(rs *Resid) []sideIssue {
 			case *ast.FuncLit:
 				var ub []string
 				ub = append(ub, userBinders...)
-				for _, n := range fieldNames(y.Type.Params) {
+				declared := append(fieldNames(y.Type.Params), fieldNames(y.Type.Results)...)
+				for _, n := range declared {
 					if rs.hole(n) != nil {
 						ub = append(ub, n)
+					}
+					// a literal name declared by the closure's own signature that equals one of the outer function's
+					// parameters and is used in the closure: the outer one is shadowed for certain
+					if literal[n] && nodeHas(y.Body, func(m ast.Node) bool { id, ok := m.(*ast.Ident); return ok && id.Name == n }) && !seen["shadow:"+n] {
+						seen["shadow:"+n] = true
+						out = append(out, sideIssue{y, fmt.Sprintf("the closure declares `%s` in its own signature and then uses `%s`: the outer function's parameter of that name is shadowed, so the closure never sees the value that was passed in", n, n), "shadow", n})
 					}
 				}
 				walk(y.Body, ub)
